@@ -2,7 +2,7 @@
    against the C definitions).  Only statements, each closed by [exact] of a lemma of FtocAbiProofs.v or by evaluation
    of the decidable predicate on the REGENERATED table Gen_C20f.abi_table, each followed by Print Assumptions. *)
 From Coq Require Import ZArith List String.
-From CgnsV Require Import ListX Ftoc FtocAbi FtocAbiProofs Gen_C20f.
+From CgnsV Require Import ListX Ftoc FtocAbi FtocAbiProofs FtocGoto FtocGotoProofs Gen_C20f.
 Import ListNotations.
 Local Open Scope Z_scope.
 
@@ -51,6 +51,37 @@ Theorem C20f_known_rows_refuted : abi_ok witness_bcdataset_info_abi = false /\ a
   abi_ok witness_field_id = false /\ arow_known witness_field_id = false /\ abi_table_ok [witness_field_id] = false.
 Proof. exact known_rows_refuted. Qed.
 Print Assumptions C20f_known_rows_refuted.
+
+(* ---- where a go-to path ends: cg_goto_fc1 / cg_gorel_fc1 (C halves of cg_goto_f / cg_gorel_f) against cg_goto / cg_gorel *)
+
+(* the terminator tests found in the CURRENT cg_ftoc.c (regenerated) have the repaired shape, or a shape listed in
+   FtocGoto.term_known (the shape of the code before notes/C20-fixes/01-goto-fc1-terminator.diff) *)
+Theorem C20f_goto_terminators_checked : terms_checked Gen_C20f.goto_terms = true.
+Proof. vm_compute. reflexivity. Qed.
+Print Assumptions C20f_goto_terminators_checked.
+
+(* for a test that is not on the exception list: cg_goto_fc1 / cg_gorel_fc1 take a label for "no pair" exactly when
+   cg_goto / cg_gorel end the path there, for EVERY string *)
+Theorem C20f_goto_terminators_agree : forall t, In t Gen_C20f.goto_terms -> existsb (term_eqb t) term_known = false ->
+  forall l, fc1_is_term t l = c_is_term l.
+Proof. exact (fun t => terms_checked_sound Gen_C20f.goto_terms t C20f_goto_terminators_checked). Qed.
+Print Assumptions C20f_goto_terminators_agree.
+
+(* any test of the repaired shape agrees with cg_goto / cg_gorel on every string *)
+Theorem C20f_goto_terminator_repaired_shape : forall t l, term_ok t = true -> fc1_is_term t l = c_is_term l.
+Proof. exact term_ok_sound. Qed.
+Print Assumptions C20f_goto_terminator_repaired_shape.
+
+(* the test of the old code is refuted: a child NAMED endwall / ENDPLATE is never reached (the path ends at its parent),
+   an all-blank Fortran label (empty after TRIM) is not an end, a leading blank is *)
+Theorem C20f_goto_terminator_old_refuted :
+  fc1_is_term term_old w_endwall = true /\ c_is_term w_endwall = false /\
+  fc1_is_term term_old w_ENDPLATE = true /\ c_is_term w_ENDPLATE = false /\
+  fc1_is_term term_old w_empty = false /\ c_is_term w_empty = true /\
+  fc1_is_term term_old w_lead = true /\ c_is_term w_lead = false /\
+  term_ok term_old = false.
+Proof. exact term_old_refuted. Qed.
+Print Assumptions C20f_goto_terminator_old_refuted.
 
 (* hypotheses are satisfiable: the table contains interface rows that are not excused *)
 Example C20f_nonvacuous : existsb (fun r => match r with AIface i => andb (negb (arow_known r)) (negb (a_variadic i)) | _ => false end)
